@@ -24,14 +24,15 @@ Proof. repeat split; reflexivity. Qed.
 (* ProbationTimeout = 30 s (the model treats its expiry as an event) *)
 Theorem C14_gen_probation_timeout : probation_timeout_ns = 30 * 1000000000.
 Proof. reflexivity. Qed.
-(* the returns of Run after Offer, in source order: cancel; Done; Done; Done; NEITHER
-   (the failed combiner commit); and one Done on the path that runs the task *)
-Theorem C14_gen_run_exits : run_exit_codes = [2; 1; 1; 1; 0] /\ run_tail_done_calls = 1.
+(* the returns of Run after Offer, in source order: cancel; then Done on each of the four
+   others, the failed combiner commit included (a 0 there is the old leak: reverting the fix
+   breaks this lemma); and one Done on the path that runs the task *)
+Theorem C14_gen_run_exits : run_exit_codes = [2; 1; 1; 1; 1] /\ run_tail_done_calls = 1.
 Proof. split; reflexivity. Qed.
 (* ... which is what the path model says, exit by exit *)
 Theorem C14_gen_run_exits_model :
   map (fun x => match run_calls x with [CCancel] => 2 | [CDone _] => 1 | _ => 0 end)
-      [XCtxBeforeGrant; XCompileFatal true; XCompileLost; XNoLocation; XCommitFail] = run_exit_codes
+      [XCtxBeforeGrant; XCompileFatal true; XCompileLost; XNoLocation; XCommitFail true] = run_exit_codes
   /\ Z.of_nat (done_count (XRan DOk)) = run_tail_done_calls.
 Proof. split; reflexivity. Qed.
 
@@ -117,7 +118,8 @@ Theorem C14_gen_do_kernel : do_kernel = [
   "pending += needMachines * m.machprocs"%string].
 Proof. reflexivity. Qed.
 
-(* Run: procs clamp for Exclusive / Procs pragmas *)
+(* Run: procs clamp for Exclusive / Procs pragmas, and every m.Done call (five: two compile
+   exits, no location, failed combiner commit, after Worker.Run) *)
 Theorem C14_gen_run_procs_kernel : run_procs_kernel = [
   "procs := task.Pragma.Procs()"%string;
   "if task.Pragma.Exclusive() || procs > mgr.machprocs"%string;
@@ -126,6 +128,7 @@ Theorem C14_gen_run_procs_kernel : run_procs_kernel = [
   "m.Done(procs, err)"%string;
   "m.Done(procs, err)"%string;
   "m.Done(procs, nil)"%string;
+  "m.Done(procs, err)"%string;
   "m.Done(procs, err)"%string].
 Proof. reflexivity. Qed.
 
@@ -278,29 +281,34 @@ Print Assumptions C14_start_bound.
 (* Run's use of the manager                                            *)
 (* ------------------------------------------------------------------ *)
 
-Theorem C14_run_returns_procs : forall x,
-  run_granted x = true -> x <> XCommitFail -> done_count x = 1%nat.
+Theorem C14_run_returns_procs : forall x, run_granted x = true -> done_count x = 1%nat.
 Proof. exact run_returns_procs. Qed.
 Theorem C14_run_ungranted_cancels : forall x, run_granted x = false -> run_calls x = [CCancel].
 Proof. exact run_ungranted_cancels. Qed.
 Theorem C14_run_path_restores : forall s r prio procs i x s',
   Inv s -> (forall g, In g (outs s) -> grid g <> r) -> (forall q, In q (schedQ s) -> rid q <> r) ->
-  x <> XCommitFail ->
   run s (run_events r prio procs i x) = Some s' ->
   need s' = need s /\ outs s' = outs s /\ schedQ s' = schedQ s /\
   forall m', In m' (machs s') -> mload m' = out_sum (mid m') (outs s).
 Proof. exact run_path_restores. Qed.
 Print Assumptions C14_run_path_restores.
 
-(* the defect: the exit after a failed combiner commit returns nothing *)
-Theorem C14_commit_leak_refuted : exists x, run_granted x = true /\ done_count x = 0%nat.
-Proof. exact commit_leak_refuted. Qed.
-Theorem C14_commit_leak_starves :
+(* regression witnesses about the OLD exit-path model (before the fix in
+   exec/bigmachine.go): the exit after a failed combiner commit returned nothing *)
+Theorem C14_old_commit_exit_leaks :
+  exists x, run_granted x = true /\ old_done_count x = 0%nat /\ done_count x = 1%nat.
+Proof. exact old_commit_exit_leaks. Qed.
+Theorem C14_old_commit_exit_starves :
   exists s, run (init_mgr 1 1)
-                ([EOffer 0 0 1; EStarted 1 1] ++ [EGrant 0 0] ++ [] ++ [EOffer 1 0 1]) = Some s /\
+                ([EOffer 0 0 1; EStarted 1 1] ++ tl (old_run_events 0 0 1 0 (XCommitFail true)) ++ [EOffer 1 0 1]) = Some s /\
             load_of s 0 = 1 /\ step s (EGrant 1 0) = None /\ start_count s = 0 /\ inflight s = [].
-Proof. exact commit_leak_starves. Qed.
-Print Assumptions C14_commit_leak_refuted.
+Proof. exact old_commit_exit_starves. Qed.
+Theorem C14_commit_exit_frees :
+  exists s s', run (init_mgr 1 1)
+                ([EOffer 0 0 1; EStarted 1 1] ++ tl (run_events 0 0 1 0 (XCommitFail true)) ++ [EOffer 1 0 1]) = Some s /\
+            load_of s 0 = 0 /\ step s (EGrant 1 0) = Some s' /\ load_of s' 0 = 1.
+Proof. exact commit_exit_frees. Qed.
+Print Assumptions C14_old_commit_exit_leaks.
 
 (* ------------------------------------------------------------------ *)
 (* local executor                                                      *)
